@@ -298,11 +298,11 @@ func gsCorpus() []struct {
 		{true, []int{2}, []gsStepScript{{}, {}, {Upg: []int{3}}, {}, {}}},
 		{true, []int{2}, []gsStepScript{{Mid: []int{3}}, {}, {}}},                                        // upgraded between the two calls
 		{true, []int{1}, []gsStepScript{{FailIdx: true}, {FailSet: true}, {}, {FailIdx: true}, {}}},      // errors around the first success
-		{true, []int{1}, []gsStepScript{{}, {Upg: []int{0}}, {}, {Upg: []int{19}}, {}}},                   // empty key list, 19 keys
-		{true, []int{1}, []gsStepScript{{}, {Upg: []int{2}, LagSet: true}, {}, {}}},                       // inconsistent node: empty set under the new index
-		{true, []int{1, 2}, []gsStepScript{{}, {OldIdx: true}, {}, {OldIdx: true}, {}}},                   // index regression
-		{true, []int{1}, []gsStepScript{{}, {Upg: []int{2, 3}}, {Upg: []int{1}, FailSet: true}, {}, {}}},  // two upgrades between two ticks
-		{false, []int{2}, []gsStepScript{{}, {Upg: []int{3}}, {FailIdx: true}, {}}},                       // watcher without a channel
+		{true, []int{1}, []gsStepScript{{}, {Upg: []int{0}}, {}, {Upg: []int{19}}, {}}},                  // empty key list, 19 keys
+		{true, []int{1}, []gsStepScript{{}, {Upg: []int{2}, LagSet: true}, {}, {}}},                      // inconsistent node: empty set under the new index
+		{true, []int{1, 2}, []gsStepScript{{}, {OldIdx: true}, {}, {OldIdx: true}, {}}},                  // index regression
+		{true, []int{1}, []gsStepScript{{}, {Upg: []int{2, 3}}, {Upg: []int{1}, FailSet: true}, {}, {}}}, // two upgrades between two ticks
+		{false, []int{2}, []gsStepScript{{}, {Upg: []int{3}}, {FailIdx: true}, {}}},                      // watcher without a channel
 		{true, []int{3}, []gsStepScript{{Mid: []int{1, 2}}, {Mid: []int{7}, FailSet: true}, {}, {Mid: []int{1}}, {}}},
 	}
 }
